@@ -15,3 +15,5 @@ def handle : List String → String
   | _ => "bad-op"
 
 end BreezyVerif.C18
+
+def main : IO Unit := BreezyVerif.runDriver BreezyVerif.C18.handle
